@@ -92,6 +92,8 @@ pub mod schema;
 pub mod sql;
 pub mod storage;
 pub mod types;
+#[cfg(kahflane_turdb_verif)]
+pub mod verif;
 pub use btree::{
     get_fastpath_fail_stats, get_fastpath_stats, get_slowpath_stats, reset_fastpath_stats,
 };
